@@ -5,6 +5,9 @@ _COMMON = [
 SPEC = dict(
     lsan=True,
     harness=['h_oom.c'],
+    # 'clang': the library compiled by clang 14; 'o2': the optimisation level and aliasing rules of the release build; half of the cases each
+    configs=lambda tier: [dict(name='default'), dict(name='clang', libcc='clang', nworkers=4, of=8), dict(name='o2', libflavour='san-o2', libdrop=['-fno-strict-aliasing'], nworkers=4, of=8)],
+    parallel_configs=3,
     level='fault_enumeration',
     memcheck_cases={'thorough': 240},
     rule='for each seeded history H of 20-60 operations on one vector, fixed buffer, string or queue (op mixes of C04-C06 incl. new/die, setz, drop, '
